@@ -164,7 +164,9 @@ class CGen:
         ch = self.ch
         if d <= 0:
             return self.simple_stmt(1, in_block)
-        k = ch.weighted([("simple", 8), ("if", 4), ("ifelse", 4), ("block", 3), ("for", 2), ("store", 1), ("jump", 1)], "sk")
+        k = ch.weighted([("simple", 8), ("if", 4), ("ifelse", 4), ("block", 3), ("for", 2), ("store", 1), ("jump", 1), ("label", 1)], "sk")
+        if k == "label":
+            return ("label", ch.choice(["lbl", "out", "again", "l1"], "lname"), self.stmt(d - 1))
         if k == "simple":
             return self.simple_stmt(2, in_block)
         if k == "if":
@@ -280,6 +282,8 @@ class CGen:
             return s[3] is None or CGen.ends_with_open_if(s[3])
         if s[0] == "for":
             return CGen.ends_with_open_if(s[4])
+        if s[0] == "label":
+            return CGen.ends_with_open_if(s[2])
         return False
 
     def show_stmt(self, s, brace_all_ifs=False):
@@ -323,6 +327,8 @@ class CGen:
             return f"mem_store_{s[1]}{s[2]}({arg(s[3])}, {arg(s[4])});"
         if k == "jump":
             return "JUMP(" + self.show(s[1]) + ");"
+        if k == "label":
+            return s[1] + self.sp() + ":" + " " + self.show_stmt(s[2], brace_all_ifs)
         if k == "return":
             e = self.show(s[1])
             return "return" + (self.sp() if e[:1] == "(" else " ") + e + self.sp() + ";"
@@ -353,6 +359,8 @@ def norm_stmt(s):
         return ("jump", norm_expr(s[1]))
     if k == "return":
         return ("return", norm_expr(s[1]))
+    if k == "label":
+        return ("label", s[1], norm_stmt(s[2]))
     return s
 
 
@@ -494,6 +502,10 @@ def conv_stmt(c):
         if isinstance(j, list) and j[0] == "t" and j[1] == "RETURN" and len(ch) == 2:
             return ("return", conv_expr(ch[1]))
         raise ConvError("jump_stmt shape")
+    if d == "labeled_stmt":
+        if len(ch) != 2 or not (isinstance(ch[0], list) and ch[0][0] == "t" and ch[0][1] == "IDENTIFIER"):
+            raise ConvError("labeled_stmt shape")
+        return ("label", _tok(ch[0]), conv_stmt(ch[1]))
     if d == "expr_stmt":
         return ("empty",)
     return ("expr", conv_expr(c))
@@ -535,6 +547,8 @@ def strip_empty(s):
         return ("jump", strip_expr(s[1]))
     if k == "return":
         return ("return", strip_expr(s[1]))
+    if k == "label":
+        return ("label", s[1], strip_empty(s[2]))
     return s
 
 
